@@ -1,7 +1,7 @@
 (* C06 — Partition identity is tag-set equality; FROM selects exactly the matches.
    Property theorems only; each is closed by a lemma of proofs/TIndexIdP.v, TagsEvalP.v, C06RefP.v.
    quote/unquote = strconv.Quote/Unquote, upper/lower = strings.ToUpper/ToLower, pmatch = path.Match (oracles). *)
-From LR Require Import lib.Base model.KV model.Tags model.TagsEval model.TIndexId proofs.KVP proofs.TagsP proofs.TagsEvalP proofs.TIndexIdP proofs.C08RefP proofs.C06RefP proofs.QuoteInstP.
+From LR Require Import lib.Base model.KV model.Tags model.TagsEval model.TIndexId proofs.KVP proofs.TagsP proofs.TagsEvalP proofs.TIndexIdP proofs.C08RefP proofs.C06RefP proofs.QuoteInstP proofs.TagsInjP proofs.C06InjP.
 
 (* ---- identity ---- *)
 (* the full statement: in every history of GetOrCreateJournal calls, two answered calls get the same partition
@@ -14,7 +14,44 @@ Definition C06_identity_statement (quote : bytes -> bytes) (unquote : bytes -> o
     nth_error (snd (run quote unquote t_empty texts)) j = Some (GSrc sj gj) ->
     (si = sj <-> mi = mj).
 
-(* proved part: histories in which the printed line of every denoted set denotes that set (the C08 law, rt_ok);
+(* proved part, weakest hypothesis: ANY history; for two calls on which the raw-text fast path is sound (fast_ok: the
+   text is not the stored line of ANOTHER set denoted in the history) both are answered, with exactly the denoted
+   sets, and identity holds.  No hypothesis on the look-up by canonical line: the line() of the code is injective on
+   accepted sets (C08_tags_injective), two sets never share a line -- the former identity-line-collision class. *)
+Theorem C06_identity_fastpath_partial : forall quote unquote, QuoteSpec quote unquote -> forall texts i j ti tj mi mj,
+  nth_error texts i = Some ti -> nth_error texts j = Some tj ->
+  to_map unquote ti = Ok mi -> to_map unquote tj = Ok mj -> mi <> [] -> mj <> [] ->
+  fast_ok quote unquote texts ti mi -> fast_ok quote unquote texts tj mj ->
+  exists si sj, nth_error (snd (run quote unquote t_empty texts)) i = Some (GSrc si mi) /\
+                nth_error (snd (run quote unquote t_empty texts)) j = Some (GSrc sj mj) /\
+                (si = sj <-> mi = mj).
+Proof. exact identity2. Qed.
+Print Assumptions C06_identity_fastpath_partial.
+(* the hypothesis cannot be dropped: in the history of C06_identity_refuted it fails for the text L_XY, and only there *)
+Theorem C06_fast_ok_needed : forall quote unquote, QuoteSpec quote unquote ->
+  ~ fast_ok quote unquote [T1 quote; L_XY; T3 quote] L_XY [(A, V_XY)] /\
+  fast_ok quote unquote [T1 quote; L_XY; T3 quote] (T3 quote) [(A, V_XY)] /\
+  fast_ok quote unquote [T1 quote; L_XY; T3 quote] (T1 quote) M_XY.
+Proof.
+  intros quote unquote QS. destruct (identity_fastpath quote unquote QS) as (H2 & H3 & _).
+  destruct (tags_unbalanced_other_set quote unquote QS) as (H1 & L1 & _). fold (T1 quote) in H1.
+  assert (L3 : line quote [(A, V_XY)] = T3 quote) by reflexivity.
+  assert (NE13 : T1 quote <> T3 quote).
+  { intros E. rewrite E, H3 in H1. discriminate. }
+  assert (NE3 : T3 quote <> L_XY).
+  { destruct (quote_facts quote unquote QS V_XY) as (F & _). unfold T3. destruct (quote V_XY) as [|c q]; [discriminate|].
+    cbn in F. apply byte_eqb_eq in F. subst c. discriminate. }
+  assert (NE1 : T1 quote <> L_XY) by (intros E; rewrite E, H2 in H1; discriminate).
+  assert (All : forall t' m', In t' [T1 quote; L_XY; T3 quote] -> to_map unquote t' = Ok m' -> m' = M_XY \/ m' = [(A, V_XY)]).
+  { intros t' m' [<-|[<-|[<-|[]]]] Hm'; [left|right|right]; congruence. }
+  split; [|split].
+  - intros FO. specialize (FO (T1 quote) M_XY (or_introl eq_refl) H1 L1). discriminate.
+  - intros t' m' Hin Hm' El. destruct (All t' m' Hin Hm') as [-> | ->]; [|reflexivity]. rewrite L1 in El. congruence.
+  - intros t' m' Hin Hm' El. destruct (All t' m' Hin Hm') as [-> | ->]; [reflexivity|]. rewrite L3 in El. congruence.
+Qed.
+Print Assumptions C06_fast_ok_needed.
+
+(* histories in which the printed line of every denoted set denotes that set (the C08 law, rt_ok);
    then every call for a non-empty set is answered, with exactly the denoted set, and identity holds *)
 Theorem C06_identity_partial : forall quote unquote texts,
   (forall t m, In t texts -> to_map unquote t = Ok m -> rt_ok quote unquote m) ->
@@ -26,7 +63,9 @@ Theorem C06_identity_partial : forall quote unquote texts,
 Proof. intros quote unquote texts. exact (identity quote unquote texts). Qed.
 Print Assumptions C06_identity_partial.
 
-(* the C08 law holds on the safe class of C08, so identity holds whenever every denoted set is tag_safe *)
+(* the C08 law holds on the safe class of C08 (the code's line(): names from the parser, every raw-printed value with
+   balanced double quotes, first name not starting with an opening brace), so identity holds whenever every denoted
+   set is tag_safe *)
 Theorem C06_identity_safe_partial : forall quote unquote, QuoteSpec quote unquote -> forall texts,
   (forall t m, In t texts -> to_map unquote t = Ok m -> tag_safe m = true) ->
   forall i j ti tj mi mj, nth_error texts i = Some ti -> nth_error texts j = Some tj ->
@@ -42,25 +81,35 @@ Proof.
 Qed.
 Print Assumptions C06_identity_safe_partial.
 
-(* refutation 1 (raw-text fast path): a="x" and a=x denote the same set but get two partitions *)
-Theorem C06_identity_refuted : forall quote unquote, QuoteSpec quote unquote -> OracleFacts quote unquote ->
+(* refutation (raw-text fast path over a line that does not denote its set): the set {a: x"y, b: z"w} -- values with
+   an inner double quote, which line() must print raw (TestTagLine) -- is stored under the line a=x"y,b=z"w; that
+   text denotes ANOTHER set, {a: x"y,b=z"w}, and is answered with the first partition, while the spelling
+   a="x\"y,b=z\"w" of the same set gets a second one.  This is the one C08 class the quoting repair leaves
+   (tagline-value-unbalanced-dquote); the witnesses of the repaired classes (a="x" after a="\"x\"", and the two sets
+   {a: } and {a: ""} sharing the line a="") are C08_tags_leading_dquote_unquoted_refuted and
+   C08_tags_injective_unquoted_refuted: theorems about the earlier line() only *)
+Theorem C06_identity_refuted : forall quote unquote, QuoteSpec quote unquote ->
   ~ C06_identity_statement quote unquote.
 Proof.
-  intros quote unquote QS OF St.
-  destruct (identity_fastpath quote unquote QS OF) as (H2 & H3 & R).
-  specialize (St [A ++ EQ :: quote DQ_X; T2; T3] 1 2 T2 T3 [(A, X)] [(A, X)] 0 1 [(A, DQ_X)] [(A, X)] eq_refl eq_refl H2 H3).
+  intros quote unquote QS St.
+  destruct (identity_fastpath quote unquote QS) as (H2 & H3 & R).
+  specialize (St [T1 quote; L_XY; T3 quote] 1 2 L_XY (T3 quote) [(A, V_XY)] [(A, V_XY)] 0 1 M_XY [(A, V_XY)] eq_refl eq_refl H2 H3).
   rewrite R in St. specialize (St eq_refl eq_refl). destruct St as (_ & St). specialize (St eq_refl). discriminate.
 Qed.
 Print Assumptions C06_identity_refuted.
-(* refutation 2 (line collision): two different sets share one partition *)
-Theorem C06_identity_collision_refuted : forall quote unquote, QuoteSpec quote unquote -> OracleFacts quote unquote ->
+(* the same history read the other way: two different sets, one partition *)
+Theorem C06_identity_two_sets_one_partition_refuted : forall quote unquote, QuoteSpec quote unquote ->
   exists t1 t2 m1 m2 s g1 g2, to_map unquote t1 = Ok m1 /\ to_map unquote t2 = Ok m2 /\ m1 <> m2 /\
     snd (run quote unquote t_empty [t1; t2]) = [GSrc s g1; GSrc s g2].
 Proof.
-  intros quote unquote QS OF. destruct (identity_collision quote unquote QS OF) as (H1 & H2 & R).
-  do 7 eexists. split; [exact H1|]. split; [exact H2|]. split; [discriminate|exact R].
+  intros quote unquote QS. destruct (identity_fastpath quote unquote QS) as (H2 & _ & R).
+  destruct (tags_unbalanced_other_set quote unquote QS) as (H1 & _ & _).
+  exists (T1 quote), L_XY, M_XY, [(A, V_XY)], 0, M_XY, M_XY. split; [exact H1|]. split; [exact H2|]. split; [discriminate|].
+  cbn [run] in *. destruct (get_or_create quote unquote t_empty (T1 quote) true) as [st1 r1].
+  destruct (get_or_create quote unquote st1 L_XY true) as [st2 r2].
+  destruct (get_or_create quote unquote st2 (T3 quote) true) as [st3 r3]. cbn [snd] in *. injection R as -> -> _. reflexivity.
 Qed.
-Print Assumptions C06_identity_collision_refuted.
+Print Assumptions C06_identity_two_sets_one_partition_refuted.
 
 (* two racing first writes of one new set (both orders of the two lock-protected steps): one partition, one id *)
 Theorem C06_race : forall quote unquote st t1 t2 m first1,
